@@ -6,6 +6,8 @@ import random
 
 from hypothesis import strategies as st
 
+from job_shop_lib.exceptions import ValidationError
+
 from job_shop_lib.dispatching import Dispatcher
 from job_shop_lib.dispatching.rules import random_operation_rule
 from job_shop_lib.generation import GeneralInstanceGenerator
@@ -93,6 +95,25 @@ def fixed_cases(tier):
             "extra": [1, 2],
         }
         for recirc in (False, True)
+    ] + [
+        # generate(num_machines=m) alone with fewer jobs than machines
+        # disallowed and a machine range reaching beyond the job range
+        {
+            "params": {
+                "num_jobs": [2, 3],
+                "num_machines": [2, 6],
+                "duration_range": [1, 5],
+                "allow_less_jobs_than_machines": False,
+                "allow_recirculation": False,
+                "machines_per_operation": 1,
+                "name_suffix": "x",
+                "seed": 3,
+                "iteration_limit": 2,
+            },
+            "pattern": "explicit",
+            "n": 8,
+            "extra": [4, 9, 14, 19, 24, 29],
+        }
     ]
 
 
@@ -278,8 +299,25 @@ def check_case(case, ctx):
                 mm = m_lo + (e // 2) % (hi - m_lo + 1)
                 args = {"num_jobs": jj, "num_machines": mm}
                 forced = (jj, mm)
-            a = g1.generate(**args)
-            b = g2.generate(**args)
+            if e % 5 == 4:
+                # only the number of machines is given: the number of jobs is
+                # drawn; a draw that does not fit is refused, never returned
+                hi = m_hi
+                mm = m_lo + (e // 5) % (hi - m_lo + 1)
+                args = {"num_machines": mm}
+                forced = (None, mm)
+            try:
+                a = g1.generate(**args)
+            except ValidationError:
+                a = None
+            try:
+                b = g2.generate(**args)
+            except ValidationError:
+                b = None
+            ctx.check((a is None) == (b is None), "same-seed-different-sequence", f"generate({args}) #{i}: refused by one of two identical generators only")
+            if a is None or b is None:
+                ctx.count("explicit_refused")
+                continue
             check_instance(ctx, params, a, f"generate({args}) #{i}", forced)
             seq1.append(a)
             seq2.append(b)
